@@ -1,42 +1,570 @@
 package main
 
+// C12 — branch and metadata updates are linearizable; accepted commits stay replayable.
+//
+// Sub-checks (all run 2–4 real lake handles over one in-memory storage engine under an explicit
+// schedule of storage operations; every run is also fed to the Lean model):
+//   corpus  stored past failures
+//   enum    systematic enumeration of interleavings of small fixed scenarios up to a preemption
+//           budget (model validation + search; not the proof)
+//   rand    random scenarios (commits, deletes, branch and pool create/rename/remove) under
+//           random schedules with few preemptions
+// Oracles on the real code, independent of the model: after every returned operation (and after
+// every storage step in the enumeration) every branch of every pool is readable from a cold
+// handle; at the end the history is linearizable against the sequential specification
+// (hlib/storelin.go) and ends in the observed state: every acknowledged commit exactly once in
+// its branch's chain, no lost update, names unique, failed operations invisible.
+
 import (
-	"fmt"
 	"os"
+	"sync"
+	"encoding/json"
+	"fmt"
+	"strings"
+	"time"
 	. "verifharness/hlib"
 )
 
 func main() { Main("C12", runC12) }
 
-func runC12(c *Ctx) {
+// sink serialises access to the Ctx and the model from the worker goroutines.
+type sink struct {
+	mu sync.Mutex
+	c  *Ctx
+}
+
+func (k *sink) Fail(kind, key, what string, replay any) {
+	k.mu.Lock()
+	defer k.mu.Unlock()
+	k.c.Fail(kind, key, what, replay)
+}
+func (k *sink) Stat(n string) { k.mu.Lock(); k.c.Stat(n); k.mu.Unlock() }
+func (k *sink) StatN(n string, x int) {
+	k.mu.Lock()
+	k.c.StatN(n, x)
+	k.mu.Unlock()
+}
+func (k *sink) Eval(key string) { k.mu.Lock(); k.c.Eval(key); k.mu.Unlock() }
+func (k *sink) Sample(x any)    { k.mu.Lock(); k.c.Sample(x); k.mu.Unlock() }
+func (k *sink) Compare(r *StoreRun) (string, string) {
+	k.mu.Lock()
+	defer k.mu.Unlock()
+	k.c.Res.ModelCases++
+	return r.CompareWithModel(k.c.Model(), "C12")
+}
+
+const c12Workers = 4
+
+type c12Case struct {
+	Clients [][]StoreOp `json:"clients"`
+	Setup   int         `json:"setup"` // leading operations of client 0 that run alone first
+	Sched   []int       `json:"sched"` // explicit schedule after the setup; then: continue the last client, else lowest enabled
+	Note    string      `json:"note,omitempty"`
+}
+
+type c12Choice struct {
+	enabled  []int
+	chosen   int
+	commutes bool // the previously running client's next operation commutes with everything
+}
+
+type c12Result struct {
+	run     *StoreRun
+	choices []c12Choice
+	sched   []int // performed after setup
+}
+
+func hasDup(xs []int) bool {
+	for i := range xs {
+		for j := i + 1; j < len(xs); j++ {
+			if xs[i] == xs[j] {
+				return true
+			}
+		}
+	}
+	return false
+}
+
+func contains(xs []int, x int) bool {
+	for _, y := range xs {
+		if y == x {
+			return true
+		}
+	}
+	return false
+}
+
+// c12Run executes one case on the real code.  everyStep: run the readability oracle after
+// every storage step (else after every returned operation).
+func c12Run(c *sink, cs *c12Case, everyStep bool) (*c12Result, bool) {
 	e := NewStoreEngine()
 	e.Coop = true
-	ops := [][]StoreOp{
-		{{Kind: "createPool", Lbl: 1, Name: 1}, {Kind: "load", Pool: 1, Branch: 0, Obj: 5, Lbl: 7}, {Kind: "load", Pool: 1, Branch: 0, Obj: 6, Lbl: 8}, {Kind: "delete", Pool: 1, Branch: 0, Objs: []int{5}, Lbl: 9}},
-		{{Kind: "load", Pool: 1, Branch: 0, Obj: 10, Lbl: 11}, {Kind: "createBranch", Pool: 1, Name: 2, Parent: 7}, {Kind: "renamePool", Pool: 1, Name: 3}, {Kind: "removeBranch", Pool: 1, Name: 2}, {Kind: "removePool", Pool: 1}},
-	}
-	r, err := NewStoreRun(e, ops)
+	r, err := NewStoreRun(e, cs.Clients)
 	if err != nil {
-		panic(err)
+		c.Fail("harness", "C12:harness:setup", err.Error(), cs)
+		return nil, false
 	}
-	for !r.Finished(0) {
-		r.Grant(0)
+	res := &c12Result{run: r}
+	failed := false
+	replay := func() any {
+		return &c12Case{Clients: cs.Clients, Setup: cs.Setup, Sched: append([]int(nil), res.sched...), Note: cs.Note}
 	}
-	for !r.Finished(1) {
-		r.Grant(1)
+	checkReadable := func(when string) {
+		if failed {
+			return
+		}
+		ps, err := r.Observe()
+		if err != nil {
+			failed = true
+			c.Fail("oracle", "C12:readable:pools", fmt.Sprintf("%s: pools table unreadable from a cold handle: %v", when, err), replay())
+			return
+		}
+		for _, p := range ps {
+			if !p.Readable {
+				failed = true
+				c.Fail("oracle", "C12:readable:pool", fmt.Sprintf("%s: pool %s is listed but cannot be opened: %s", when, p.Name, p.Err), replay())
+				return
+			}
+			for _, b := range p.Branches {
+				if !b.Readable {
+					failed = true
+					key := "C12:readable:branch"
+					if strings.Contains(b.Err, "delete of a non-existent data object") {
+						for _, h := range r.History {
+							if h.Op.Kind == "delete" && h.Res == "ok" && h.Op.Branch == b.Key && hasDup(h.Op.Objs) {
+								key = "C12:readable:duplicate-delete-ids"
+							}
+						}
+					}
+					c.Fail("oracle", key, fmt.Sprintf("%s: branch %s/%s cannot be replayed: %s", when, p.Name, b.Name, b.Err), replay())
+					return
+				}
+			}
+		}
+	}
+	r.AfterOp = func(r *StoreRun, rec *OpRecord) {
+		if rec.Res == "panic" {
+			failed = true
+			c.Fail("panic", "C12:panic:"+rec.Op.Kind, rec.Err, replay())
+			return
+		}
+		if strings.HasPrefix(rec.Res, "other:") {
+			failed = true
+			c.Fail("oracle", "C12:error:"+rec.Op.Kind, fmt.Sprintf("client %d %s failed with an unclassified error: %s", rec.Client, rec.Op, rec.Err), replay())
+			return
+		}
+		if !everyStep {
+			checkReadable(fmt.Sprintf("after client %d %s returned %s", rec.Client, rec.Op, rec.Res))
+		}
+	}
+	// setup
+	for guard := 0; (r.NextIdx(0) < cs.Setup || (r.InFlight(0) && r.NextIdx(0) <= cs.Setup)) && r.Err == nil && guard < 100000; guard++ {
+		if !r.Grant(0) {
+			break
+		}
+	}
+	nSetup := len(r.Sched)
+	last := -1
+	step := func(cl int) {
+		var en []int
+		for k := range cs.Clients {
+			if r.Enabled(k) {
+				en = append(en, k)
+			}
+		}
+		ch := c12Choice{enabled: en, chosen: cl}
+		if last >= 0 && r.Enabled(last) {
+			ch.commutes = r.NextCommutes(last)
+		}
+		if r.Grant(cl) {
+			res.choices = append(res.choices, ch)
+			res.sched = append(res.sched, cl)
+			last = cl
+			if everyStep {
+				checkReadable(fmt.Sprintf("after storage step %d (client %d)", len(r.Sched), cl))
+			}
+		}
+	}
+	for _, cl := range cs.Sched {
+		if r.Err != nil || failed {
+			break
+		}
+		if cl < len(cs.Clients) && r.Enabled(cl) {
+			step(cl)
+		}
+	}
+	for r.Err == nil && !failed {
+		cl := -1
+		if last >= 0 && r.Enabled(last) {
+			cl = last
+		} else {
+			for k := range cs.Clients {
+				if r.Enabled(k) {
+					cl = k
+					break
+				}
+			}
+		}
+		if cl < 0 {
+			break
+		}
+		step(cl)
+		if len(r.Sched) > 20000 {
+			r.Err = fmt.Errorf("schedule does not terminate")
+		}
+	}
+	_ = nSetup
+	if e.Problem != "" && r.Err == nil {
+		r.Err = fmt.Errorf("%s", e.Problem)
 	}
 	if r.Err != nil {
-		panic(r.Err)
+		c.Fail("harness", "C12:harness:run", r.Err.Error(), replay())
+		return res, false
 	}
-	for _, h := range r.History {
-		fmt.Fprintf(os.Stderr, "%+v\n", *h)
+	if failed {
+		return res, false
 	}
-	diff, req := r.CompareWithModel(c.Model(), "C12")
-	fmt.Fprintln(os.Stderr, "DIFF:", diff)
-	if diff != "" {
-		fmt.Fprintln(os.Stderr, req)
-		for _, l := range r.RenderTrace() {
-			fmt.Fprintln(os.Stderr, l)
+	// final oracle: linearizability + final state
+	obs, err := r.Observe()
+	if err != nil {
+		c.Fail("oracle", "C12:readable:pools", "final pools table unreadable: "+err.Error(), replay())
+		return res, false
+	}
+	pl, cm := r.StoreIDStrings()
+	why, unjust := StoreLinearizable(r.History, obs, pl, cm)
+	if why != "" {
+		c.Fail("oracle", "C12:lin:"+c12LinClass(why), "history is not linearizable: "+why, replay())
+		return res, false
+	}
+	if unjust != "" {
+		c.Stat("lin:failure-class-not-sequential")
+	}
+	// correspondence with the model
+	if diff, req := c.Compare(r); diff != "" {
+		c.Fail("correspondence", "C12:model:"+strings.SplitN(diff, "[", 2)[0], "model and code disagree: "+diff, map[string]any{"case": replay(), "model_request": req})
+		return res, false
+	}
+	return res, true
+}
+
+func c12LinClass(why string) string {
+	switch {
+	case strings.Contains(why, "chain"):
+		return "chain"
+	case strings.Contains(why, "object"):
+		return "objects"
+	case strings.Contains(why, "unreadable"):
+		return "unreadable"
+	case strings.Contains(why, "pool"):
+		return "pools"
+	case strings.Contains(why, "branch"):
+		return "branches"
+	case strings.Contains(why, "returned"):
+		return "result"
+	}
+	return "other"
+}
+
+func c12Stats(c *sink, cs *c12Case, res *c12Result) {
+	kinds := map[string]bool{}
+	for _, ops := range cs.Clients {
+		for _, o := range ops {
+			kinds[o.Kind] = true
 		}
+	}
+	for k := range kinds {
+		c.Stat("scenario-with:" + k)
+	}
+	c.Stat(fmt.Sprintf("clients:%d", len(cs.Clients)))
+	if res == nil || res.run == nil {
+		return
+	}
+	for _, h := range res.run.History {
+		c.Stat("result:" + h.Op.Kind + ":" + strings.SplitN(h.Res, ":", 2)[0])
+	}
+	sw := 0
+	for i := 1; i < len(res.sched); i++ {
+		if res.sched[i] != res.sched[i-1] {
+			sw++
+		}
+	}
+	switch {
+	case sw <= 2:
+		c.Stat("switches:0-2")
+	case sw <= 5:
+		c.Stat("switches:3-5")
+	default:
+		c.Stat("switches:6+")
+	}
+	n := len(res.sched)
+	switch {
+	case n < 40:
+		c.Stat("steps:<40")
+	case n < 80:
+		c.Stat("steps:40-79")
+	default:
+		c.Stat("steps:80+")
+	}
+}
+
+func c12Key(cs *c12Case, sched []int) string {
+	b, _ := json.Marshal(cs.Clients)
+	return fmt.Sprintf("%s|%d|%v", b, cs.Setup, sched)
+}
+
+// c12Enumerate explores all interleavings of the case up to `bound` preemptions (a
+// preemption = switching away from a client that could continue, before an operation that
+// does not commute), at most maxRuns runs.
+func c12Enumerate(c *sink, base *c12Case, bound, maxRuns int, everyStep bool, deadline time.Time) int {
+	type item struct {
+		prefix []int
+		pre    int
+	}
+	stack := []item{{nil, 0}}
+	runs := 0
+	for len(stack) > 0 && runs < maxRuns && time.Now().Before(deadline) {
+		it := stack[len(stack)-1]
+		stack = stack[:len(stack)-1]
+		cs := &c12Case{Clients: base.Clients, Setup: base.Setup, Sched: it.prefix, Note: base.Note}
+		res, ok := c12Run(c, cs, everyStep)
+		runs++
+		if res != nil {
+			c.Eval(c12Key(cs, res.sched))
+			c12Stats(c, cs, res)
+			c.Stat(fmt.Sprintf("enum:preemptions:%d", it.pre))
+		}
+		if !ok || res == nil {
+			continue
+		}
+		// count preemptions along the run and branch
+		pre := 0
+		for i, ch := range res.choices {
+			prevEnabled := i > 0 && contains(ch.enabled, res.choices[i-1].chosen)
+			if i >= len(it.prefix) {
+				for _, alt := range ch.enabled {
+					if alt == ch.chosen {
+						continue
+					}
+					cost := 0
+					if prevEnabled && alt != res.choices[i-1].chosen {
+						if ch.commutes {
+							continue // delaying a commuting read is not a new interleaving
+						}
+						cost = 1
+					}
+					if pre+cost <= bound {
+						np := append(append([]int(nil), res.sched[:i]...), alt)
+						stack = append(stack, item{np, pre + cost})
+					}
+				}
+			}
+			if prevEnabled && ch.chosen != res.choices[i-1].chosen {
+				pre++
+			}
+		}
+	}
+	return runs
+}
+
+// ---- scenarios ---------------------------------------------------------------------------
+
+func load(pool, branch, obj, lbl int) StoreOp {
+	return StoreOp{Kind: "load", Pool: pool, Branch: branch, Obj: obj, Lbl: lbl}
+}
+func del(pool, branch, lbl int, objs ...int) StoreOp {
+	return StoreOp{Kind: "delete", Pool: pool, Branch: branch, Objs: objs, Lbl: lbl}
+}
+func createPool(lbl, name int) StoreOp { return StoreOp{Kind: "createPool", Lbl: lbl, Name: name} }
+func renamePool(pool, name int) StoreOp {
+	return StoreOp{Kind: "renamePool", Pool: pool, Name: name}
+}
+func removePool(pool int) StoreOp { return StoreOp{Kind: "removePool", Pool: pool} }
+func createBranch(pool, name, parent int) StoreOp {
+	return StoreOp{Kind: "createBranch", Pool: pool, Name: name, Parent: parent}
+}
+func removeBranch(pool, name int) StoreOp {
+	return StoreOp{Kind: "removeBranch", Pool: pool, Name: name}
+}
+
+// Fixed small scenarios for the systematic enumeration.  Client 0 runs `Setup` operations
+// alone first (pool 1 named q1, objects 1 and 2 on main).
+func c12Fixed() []*c12Case {
+	setup := []StoreOp{createPool(1, 1), load(1, 0, 1, 101), load(1, 0, 2, 102)}
+	mk := func(note string, c0 []StoreOp, rest ...[]StoreOp) *c12Case {
+		cl := [][]StoreOp{append(append([]StoreOp(nil), setup...), c0...)}
+		cl = append(cl, rest...)
+		return &c12Case{Clients: cl, Setup: len(setup), Note: note}
+	}
+	return []*c12Case{
+		mk("two loads on main", []StoreOp{load(1, 0, 3, 103)}, []StoreOp{load(1, 0, 4, 104)}),
+		mk("load vs delete; two deletes of one object", []StoreOp{del(1, 0, 103, 1)}, []StoreOp{del(1, 0, 104, 1)}),
+		mk("load vs delete of another object", []StoreOp{load(1, 0, 3, 103)}, []StoreOp{del(1, 0, 104, 2)}),
+		mk("two pools of one name", []StoreOp{createPool(2, 2)}, []StoreOp{createPool(3, 2)}),
+		mk("create vs rename to one name", []StoreOp{createPool(2, 2)}, []StoreOp{renamePool(1, 2)}),
+		mk("two branches of one name", []StoreOp{createBranch(1, 1, 101)}, []StoreOp{createBranch(1, 1, 102)}),
+		mk("load vs remove of its branch", []StoreOp{createBranch(1, 1, 101), load(1, 1, 3, 103)}, []StoreOp{removeBranch(1, 1)}),
+		mk("load vs remove of its pool", []StoreOp{load(1, 0, 3, 103)}, []StoreOp{removePool(1)}),
+		mk("rename vs remove", []StoreOp{renamePool(1, 2)}, []StoreOp{removePool(1)}),
+		mk("three loads", []StoreOp{load(1, 0, 3, 103)}, []StoreOp{load(1, 0, 4, 104)}, []StoreOp{load(1, 0, 5, 105)}),
+		mk("two loads each", []StoreOp{load(1, 0, 3, 103), load(1, 0, 5, 105)}, []StoreOp{load(1, 0, 4, 104), del(1, 0, 106, 4)}),
+	}
+}
+
+func c12Random(c *Ctx) *c12Case {
+	r := c.Rng
+	setup := []StoreOp{createPool(1, 1), load(1, 0, 1, 101), load(1, 0, 2, 102)}
+	if r.Intn(3) == 0 {
+		setup = append(setup, createBranch(1, 1, 101))
+	}
+	if r.Intn(4) == 0 {
+		setup = append(setup, createPool(2, 2))
+	}
+	// a longer branches journal now and then, so that journal snapshots (> 10 entries) occur
+	if r.Intn(6) == 0 {
+		for i := 0; i < 8; i++ {
+			setup = append(setup, load(1, 0, 50+i, 150+i))
+		}
+	}
+	nclients := 2 + r.Intn(3)
+	nextObj, nextLbl := 3, 103
+	var clients [][]StoreOp
+	for k := 0; k < nclients; k++ {
+		var ops []StoreOp
+		nops := 1 + r.Intn(3)
+		if nclients >= 4 {
+			nops = 1 + r.Intn(2)
+		}
+		var own []int
+		for i := 0; i < nops; i++ {
+			branch := 0
+			if r.Intn(4) == 0 {
+				branch = 1
+			}
+			switch x := r.Intn(20); {
+			case x < 8:
+				ops = append(ops, load(1, branch, nextObj, nextLbl))
+				own = append(own, nextObj)
+				nextObj++
+				nextLbl++
+			case x < 12:
+				objs := []int{1 + r.Intn(2)}
+				if len(own) > 0 && r.Intn(2) == 0 {
+					objs = []int{own[r.Intn(len(own))]}
+				}
+				if r.Intn(5) == 0 {
+					// a second object; the same id twice only rarely (that is the known
+					// defect C12:readable:duplicate-delete-ids and ends the run)
+					o2 := 3 - objs[0]
+					if o2 < 1 || o2 > 2 {
+						o2 = 1 + r.Intn(2)
+					}
+					if r.Intn(8) == 0 {
+						o2 = objs[0]
+					}
+					objs = append(objs, o2)
+				}
+				ops = append(ops, del(1, branch, nextLbl, objs...))
+				nextLbl++
+			case x < 14:
+				ops = append(ops, createBranch(1, 1+r.Intn(2), []int{0, 101, 102}[r.Intn(3)]))
+			case x < 15:
+				ops = append(ops, removeBranch(1, 1+r.Intn(2)))
+			case x < 17:
+				ops = append(ops, createPool(10+k*4+i, 1+r.Intn(3)))
+			case x < 18:
+				ops = append(ops, renamePool(1+r.Intn(2), 1+r.Intn(3)))
+			case x < 19:
+				ops = append(ops, removePool(1+r.Intn(2)))
+			default:
+				ops = append(ops, load(2, 0, nextObj, nextLbl))
+				nextObj++
+				nextLbl++
+			}
+		}
+		clients = append(clients, ops)
+	}
+	clients[0] = append(setup, clients[0]...)
+	cs := &c12Case{Clients: clients, Setup: len(setup)}
+	// random schedule: bursts
+	n := 0
+	for n < 400 {
+		cl := r.Intn(nclients)
+		burst := 1 + r.Intn(12)
+		if r.Intn(3) == 0 {
+			burst = 1 + r.Intn(60)
+		}
+		for i := 0; i < burst; i++ {
+			cs.Sched = append(cs.Sched, cl)
+		}
+		n += burst
+	}
+	return cs
+}
+
+func runC12(c0 *Ctx) {
+	c := &sink{c: c0}
+	c0.Rule("2–4 real lake handles over one in-memory storage.Engine with a cooperative scheduler; a case = per-client lists of 1–3 API operations (load, delete, branch create/remove, pool create/rename/remove) after a sequential setup + a schedule of storage operations; enum: all interleavings of 11 fixed conflict scenarios up to a preemption budget (preemptions before reads of immutable files are skipped); rand: random scenarios under random burst schedules; distinct = distinct (scenario, performed schedule); non-trivial = at least two clients overlap")
+	if c0.Replay != nil {
+		var cs c12Case
+		if err := json.Unmarshal(c0.Replay, &cs); err != nil || len(cs.Clients) == 0 {
+			var w struct {
+				Case c12Case `json:"case"`
+			}
+			if json.Unmarshal(c0.Replay, &w) == nil && len(w.Case.Clients) > 0 {
+				cs = w.Case
+			} else {
+				c.Fail("harness", "C12:harness:replay", "cannot parse replay", nil)
+				return
+			}
+		}
+		res, _ := c12Run(c, &cs, true)
+		c.Eval(c12Key(&cs, cs.Sched))
+		c12Stats(c, &cs, res)
+		return
+	}
+	for _, raw := range c0.CorpusCases() {
+		var cs c12Case
+		if json.Unmarshal(raw, &cs) == nil && len(cs.Clients) > 0 {
+			res, _ := c12Run(c, &cs, true)
+			c.Eval(c12Key(&cs, cs.Sched))
+			c12Stats(c, &cs, res)
+			c.Stat("corpus")
+		}
+	}
+	if c0.Want("enum") {
+		fixed := c12Fixed()
+		deadline := time.Now().Add(time.Duration(c0.N(50, 420)) * time.Second)
+		bound, perScenario := c0.N(1, 2), c0.N(60, 6000)
+		everyStep := os.Getenv("C12_EVERY") != "0"
+		ParallelDo(len(fixed), c12Workers, func(i int) {
+			cs := fixed[i]
+			n := c12Enumerate(c, cs, bound, perScenario, everyStep, deadline)
+			c.StatN("enum:runs", n)
+			c.Sample(map[string]any{"enum": cs.Note, "runs": n})
+		})
+	}
+	if c0.Want("rand") {
+		n := c0.N(200, 8000)
+		deadline := time.Now().Add(time.Duration(c0.N(50, 360)) * time.Second)
+		cases := make([]*c12Case, n)
+		for i := range cases {
+			cases[i] = c12Random(c0)
+		}
+		ParallelDo(n, c12Workers, func(i int) {
+			if !time.Now().Before(deadline) {
+				c.Stat("rand:skipped-deadline")
+				return
+			}
+			cs := cases[i]
+			res, _ := c12Run(c, cs, i%4 == 0)
+			if res != nil {
+				c.Eval(c12Key(cs, res.sched))
+				c12Stats(c, cs, res)
+				c.Stat("rand:runs")
+				if i < 2 {
+					c.Sample(map[string]any{"clients": cs.Clients, "sched_len": len(res.sched)})
+				}
+			}
+		})
 	}
 }
